@@ -103,6 +103,33 @@ def classify(vs):
         out.append(k)
     return out
 ''', calls=[("classify", [[0, 3, 9]])]),
+    dict(name="copy left behind by inlining a helper that returns its local", target="start", must=["first = True", "if first:"], must_not=["first_", "_init("], src='''
+class S(object):
+    def __init__(self, t):
+        self.t, self.log = t, []
+
+    def _init(self):
+        if self.t == 0:
+            first = True
+        else:
+            first = False
+        if first:
+            self.log.append("reset")
+        return first
+
+    def start(self):
+        first = self._init()
+        steps = 0
+        while steps < 2:
+            if first:
+                self.log.append("first")
+            first = False
+            steps += 1
+        return self.log
+
+def run(t):
+    return S(t).start()
+''', calls=[("run", [0]), ("run", [5])]),
     dict(name="conditional expression lowered, alias resolved", target="pick", must=["if "], src='''
 class Mode(object):
     Fast = 1
@@ -136,11 +163,11 @@ def main():
     for c in CASES:
         before = run_calls(ast.parse(c["src"]), c["calls"])
         t = ast.parse(c["src"])
-        n = ModuleNormalizer(t, {"functions": [c["target"]], "constants": []})
+        n = ModuleNormalizer(t, {"functions": [c["target"], "S." + c["target"], "S", "S.__init__", "run"], "constants": []})
         n.run()
         ast.fix_missing_locations(t)
         after = run_calls(t, c["calls"])
-        fn = next(x for x in t.body if isinstance(x, ast.FunctionDef) and x.name == c["target"])
+        fn = next(x for x in ast.walk(t) if isinstance(x, ast.FunctionDef) and x.name == c["target"])
         text = ast.unparse(fn)
         problems = []
         if before != after:
